@@ -141,21 +141,31 @@ def mfList? (g : Grammar) (i : Nat) : Option (Node × List Nat) :=
     | _ => none)
   | none => none
 
+def skipWsOf (g : Grammar) (i : Nat) : Bool :=
+  match g[i]? with
+  | some n => n.skipWs
+  | none => true
+
+/-- MatchFirst.streamline (4425-4439): the generic flattening, then `skipWhitespace = all(e.skipWhitespace ...)`
+    recomputed over the (new) alternatives -/
 def streamlineMF (g : Grammar) (O : Node) : Node :=
-  match O.kind with
-  | .matchFirst [x, y] =>
-    let O1 : Node := match mfList? g x with
-      | some (X, xs) => { O with kind := .matchFirst (xs ++ [y]), mayIdx := O.mayIdx || X.mayIdx }
-      | none => O
-    match O1.kind with
-    | .matchFirst es1 =>
-      (match es1.getLast? with
-       | some z => (match mfList? g z with
-          | some (Z, zs) => { O1 with kind := .matchFirst (es1.dropLast ++ zs), mayIdx := O1.mayIdx || Z.mayIdx }
+  let O2 : Node := match O.kind with
+    | .matchFirst [x, y] =>
+      let O1 : Node := match mfList? g x with
+        | some (X, xs) => { O with kind := .matchFirst (xs ++ [y]), mayIdx := O.mayIdx || X.mayIdx }
+        | none => O
+      (match O1.kind with
+       | .matchFirst es1 =>
+         (match es1.getLast? with
+          | some z => (match mfList? g z with
+             | some (Z, zs) => { O1 with kind := .matchFirst (es1.dropLast ++ zs), mayIdx := O1.mayIdx || Z.mayIdx }
+             | none => O1)
           | none => O1)
-       | none => O1)
-    | _ => O1
-  | _ => O
+       | _ => O1)
+    | _ => O
+  match O2.kind with
+  | .matchFirst es => if es.isEmpty then O2 else { O2 with skipWs := es.all (skipWsOf g) }
+  | _ => O2
 
 /-! ### when is a nested And equal to the flat one?
 
